@@ -445,7 +445,7 @@ func TestConv(t *testing.T) {
 	r.Sample(map[string]any{"subnet": "10.0.0.1 mask ff00ff00", "expect": "rejected (non-contiguous)"})
 	r.Sample(map[string]any{"subnet": "2001:db8:: mask /32 (16 bytes)", "probes": "network, last, +-1, every single-bit flip of the base, 24 random inside/outside"})
 	// random addresses and subnets
-	nr := r.Pick(60_000, 3_000_000)
+	nr := r.Pick(60_000, 40_000_000)
 	mon.Parallel(nr, func(w, lo, hi int) {
 		l := &local{r: r}
 		rng := r.Rand(uint64(500 + w))
@@ -552,7 +552,7 @@ func TestSort(t *testing.T) {
 	}
 	r.Exhaustive(fmt.Sprintf("every slice of length 0..%d over a 12-address pool (IPv4, IPv6, zoned, IPv4-mapped, the invalid Addr; repetitions allowed), sorted with both comparators by SortFunc and SortStableFunc", maxL))
 	r.Sample(map[string]any{"in": fmt.Sprint([]netip.Addr{pool[6], pool[0], pool[11], pool[7], pool[9]}), "PreferIPv4_expected": fmt.Sprint(expectedOrder([]netip.Addr{pool[6], pool[0], pool[11], pool[7], pool[9]}, true))})
-	nr := r.Pick(40_000, 2_000_000)
+	nr := r.Pick(40_000, 30_000_000)
 	mon.Parallel(nr, func(w, lo, hi int) {
 		var e, n int64
 		rng := r.Rand(uint64(800 + w))
